@@ -920,16 +920,22 @@ async fn late_preamble(a: &[String]) -> Vec<String> {
         let _ = late_b.finish();
         keep.push(Box::new(late_u));
         keep.push(Box::new(late_b));
-        // until everything was delivered (at most 3 s), then the clean close
+        // until everything was delivered (at most 3 s), then the clean close; what arrives only
+        // once the close tears the connection down does not count as delivered in time
         let t0 = Instant::now();
+        let mut in_time = false;
         while t0.elapsed() < Duration::from_millis(3000) {
             {
                 let s = lock(&sh);
                 if s.0.len() >= 2 && s.1.len() >= 2 {
+                    in_time = true;
                     break;
                 }
             }
             tokio::time::sleep(Duration::from_millis(10)).await;
+        }
+        if !in_time {
+            late_write = format!("{late_write};not_delivered_before_close");
         }
         if let Some((s, _)) = client.req.as_mut() {
             let _ = s.finish();
